@@ -287,8 +287,16 @@ def run(ctx):
         boundary = set()
         for s, ln in zip(starts, lens):
             boundary.update([s, s + 1, s + 2, s + 3, s + 4, s + 3 + ln - 1, s + 3 + ln])
+        blockcuts = set()
         if big:     # a few cuts only: the complete file, the last record cut, a cut behind the first 64 KiB
-            cuts = sorted({len(data), len(data) - 1, starts[-1] + 2, starts[-1], starts[150] + 7})
+            cuts = {len(data), len(data) - 1, starts[-1] + 2, starts[-1], starts[150] + 7}
+            # ... and cuts inside the record that straddles a multiple of a plausible read-ahead block
+            for B in (4096, 8192, 12288, 16384, 32768, 65536):
+                for s0, ln in zip(starts, lens):
+                    if s0 + 3 < B < s0 + 3 + ln - 1:
+                        blockcuts.update([B + 1, s0 + 3 + ln - 1])
+                        break
+            cuts = sorted(cuts | blockcuts)
         elif sampled:   # quick tier, long bursts: the record boundaries and a sample of the other offsets
             cuts = sorted({c for c in boundary if c <= len(data)} | {len(data)} | {rng.randrange(len(data) + 1) for _ in range(40)})
         p2 = os.path.join(tmp, "c%d.cap" % fi)
@@ -297,7 +305,9 @@ def run(ctx):
                 f.write(data[:cut])
             rd = data_dump.DATADumpFile(p2)
             reads = [("all", None, None)]
-            if big:
+            if big and cut in blockcuts:
+                reads += [("all", 3, None)]
+            elif big:
                 reads += [("all", sk, c) for sk, c in [(0, 1), (3, 5), (None, 10), (100, 3), (140, 2), (148, 30), (160, None), (n - 2, 5), (5, 150)]]
                 reads += [("idx", i, None) for i in (0, 1, 144, 145, 150, n - 1, n)]
             elif cut in boundary:
